@@ -279,7 +279,7 @@ def run(ck, prog, ctx):
         if b is None:
             ck.undecided("ROLE", fn + "/columns", "private helper not found")
             continue
-        cols = split_columns(b, pvn)
+        cols = split_columns(b, pvn, prog)
         calls = [(bi, t) for bi, t in b.calls() if (t.callee.res or "").endswith("ParsedGene::<'a>::try_new")]
         if not calls:
             ck.undecided("ROLE", fn + "/columns", "ParsedGene::try_new not called", where=b.where())
@@ -289,6 +289,9 @@ def run(ck, prog, ctx):
         for bi, t in calls:
             got = tuple(sorted(columns_of(b, pvn.of_operand(b, a), cols)) for a in t.args)
             ok = got == tuple([w] for w in want)
+            if not any(got):
+                ck.undecided("ROLE", fn + "/columns", "%s: none of the values handed to ParsedGene::try_new is recognisably a column of the split line (columns taken through a helper?)" % fn, where=b.where(t.line))
+                continue
             ck.ob("ROLE", fn + "/columns", ok, "%s passes columns %s as (ncbi_id, symbol, hpo) (expected %s)" % (fn, [g for g in got], list(want)), where=b.where(t.line))
     tn = prog.body(G + "ParsedGene::<'a>::try_new")
     if tn is not None:
